@@ -88,6 +88,8 @@ func evalCells(m *matrix, fns []*ssa.Function, lang, dir string) []cellResult {
 	lua := lang == "lua"
 	units := feasibleUnits()
 	if dir == "enc" {
+		// the target of a @lengthOf is a payload: a match field or a by-name / inline object. (Scalar, string and list targets are
+		// accepted by the parse phase but no generator supports them - outside the documented constructs, see DESIGN.md.)
 		units = append(units, unit{K: kMatch, Target: true}, unit{K: kObject, Target: true})
 	}
 	for _, u := range units {
@@ -97,9 +99,6 @@ func evalCells(m *matrix, fns []*ssa.Function, lang, dir string) []cellResult {
 			for _, g := range groups {
 				fmt.Printf("DBG %s/%s %s group %s sites=%d deps=%s\n", lang, dir, u, fnKey(g.fn), g.sites, g.deps)
 			}
-		}
-		if u.Target && u.K == kObject && len(groups) == 0 {
-			continue // this generator back-patches match targets only: nothing to judge for object targets
 		}
 		for _, cl := range cls {
 			res := cellResult{lang: lang, dir: dir, u: u, cl: cl}
